@@ -8,6 +8,7 @@ pub mod c03;
 pub mod c04;
 pub mod c05;
 pub mod c06;
+pub mod c07;
 pub mod c15;
 pub mod c17;
 pub mod c18;
@@ -27,6 +28,7 @@ pub fn run(id: &str, tier: Tier) -> Option<Outcome> {
         "C04" => c04::run(tier),
         "C05" => c05::run(tier),
         "C06" => c06::run(tier),
+        "C07" => c07::run(tier),
         "C15" => c15::run(tier),
         "C17" => c17::run(tier),
         "C18" => c18::run(tier),
@@ -43,6 +45,7 @@ pub fn replay(id: &str, replay: &serde_json::Value) -> Option<Vec<crate::mc::Vio
         "C03" => Some(histcommon::replay_hist(&c03::model_for(replay), replay)),
         "C04" => Some(c04::replay(replay)),
         "C05" => Some(c05::replay(replay)),
+        "C07" => Some(c07::replay(replay)),
         "C15" => Some(c15::replay(replay)),
         "C17" => Some(histcommon::replay_hist(&c17::model(Tier::Thorough, replay["world"].as_str().unwrap_or("")), replay)),
         _ => None,
